@@ -134,8 +134,11 @@ class Sym:
         if name in self.vars:
             return self.vars[name]
         with NoTracing():
-            v = proxy_for_type(int, name, allow_subtypes=False)
-            self.space.add(z3.And(v.var >= lo, v.var <= hi))
+            # constructed directly (proxy_for_type adds a "premature realize" fork once a variable was
+            # realized on an earlier path; sound, but it hands out plain ints and doubles paths)
+            from crosshair.libimpl.builtinslib import SymbolicBoundedInt
+
+            v = SymbolicBoundedInt(name, int, lo, hi)
         self.vars[name] = v
         self.bounds[name] = (lo, hi)
         return v
@@ -167,12 +170,18 @@ class Sym:
         if name in self.vars:
             return self.vars[name]
         with NoTracing():
-            s = proxy_for_type(str, name, allow_subtypes=False)
-            zs = s.var
-            self.space.add(z3.Length(zs) <= max_len)
-            re_alpha = z3.Star(z3.Union(*[z3.Re(c) for c in alphabet])) if len(alphabet) > 1 \
-                else z3.Star(z3.Re(alphabet))
-            self.space.add(z3.InRe(zs, re_alpha))
+            from crosshair.libimpl.builtinslib import LazyIntSymbolicStr, SymbolicBoundedIntTuple
+
+            cps = sorted(set(map(ord, alphabet)))
+            ranges = []
+            for c in cps:
+                if ranges and ranges[-1][1] == c - 1:
+                    ranges[-1] = (ranges[-1][0], c)
+                else:
+                    ranges.append((c, c))
+            tup = SymbolicBoundedIntTuple(ranges, name)
+            self.space.add(tup._len.var <= max_len)
+            s = LazyIntSymbolicStr(tup)
         self.vars[name] = s
         self.bounds[name] = (0, max_len)
         return s
